@@ -68,44 +68,44 @@ def lastAnUs (e : Env α) (t : Int) : Except Err Int :=
   | .ok f => .ok f.t
   | .error er => .error er
 
-/-- the instant `get_last_an_time` is asked for when the reference node is initialised (`none`: not asked):
-    `if |z| > 1 or not vz > 0 or z > 0: get_last_an_time(epoch)` (epoch not at a node, or just past it)
-    `elif z < 0: get_last_an_time(epoch + 10 min)` (epoch less than 1 km before the node: that node)
-    `else: an_time = epoch` -/
-def initAnArg (e : Env α) : Option Int :=
-  let ze := e.z e.epoch
-  if Num.gt (Num.abs ze) 1 || !(Num.gt (e.vz e.epoch) 0) || Num.gt ze 0 then some e.epoch
-  else if Num.lt ze 0 then some (e.epoch + tenMin)
-  else none
+/-- "epoch at the ascending node": `not (|z| > 1 or not vz > 0)` at the epoch (within 1 km of the equator, moving north) -/
+def epochAtNode (e : Env α) : Bool :=
+  !(Num.gt (Num.abs (e.z e.epoch)) 1 || !(Num.gt (e.vz e.epoch) 0))
 
-/-- the reference node -/
+/-- the reference node:
+    `if |z| > 1 or not vz > 0: an_time = get_last_an_time(epoch)` else `an_time = epoch` -/
 def initAnTime (e : Env α) : Except Err Int :=
-  match initAnArg e with
-  | some t => lastAnUs e t
-  | none => .ok e.epoch
+  if epochAtNode e then .ok e.epoch else lastAnUs e e.epoch
 
-/-- `an_period = an_time - get_last_an_time(an_time - 10 min)` -/
+/-- the node the nodal period is measured from, `an_time + node_shift`: the reference node itself when it was searched for
+    (`node_shift = 0`), otherwise (epoch at the node) the node just before or just after the epoch, located precisely:
+    `node_shift = get_last_an_time(epoch + 10 min) - epoch` -/
+def initNode (e : Env α) (anTime : Int) : Except Err Int :=
+  if epochAtNode e then
+    match lastAnUs e (e.epoch + tenMin) with
+    | .ok n => .ok (anTime + (n - e.epoch))
+    | .error er => .error er
+  else .ok (anTime + 0)
+
+/-- `an_period = (an_time + node_shift) - get_last_an_time(an_time + node_shift - 10 min)` -/
 def initPeriod (e : Env α) (anTime : Int) : Except Err Int :=
-  match lastAnUs e (anTime - tenMin) with
-  | .ok prev => .ok (anTime - prev)
+  match initNode e anTime with
   | .error er => .error er
+  | .ok node =>
+    match lastAnUs e (node - tenMin) with
+    | .ok prev => .ok (node - prev)
+    | .error er => .error er
 
-/-- the instants the initialisation asks `get_position` for, in order (epoch; the search for the reference node;
-    the search for the node before it), as far as the initialisation gets -/
+/-- the instants the initialisation asks `get_position` for, in order (the epoch; the search for the reference node or,
+    with the epoch at the node, for the node next to it; the search for the node before), as far as it gets -/
 def initQueries (e : Env α) : List Int :=
-  let first : List Int × Option Int :=
-    match initAnArg e with
-    | none => ([], some e.epoch)
-    | some t =>
-      match lastAn e.z tolKm tenMin e.fuelS e.fuelB t with
-      | .ok f => (f.queries t tenMin, some f.t)
-      | .error _ => ([], none)
-  match first.2 with
-  | none => e.epoch :: first.1
-  | some an =>
-    match lastAn e.z tolKm tenMin e.fuelS e.fuelB (an - tenMin) with
-    | .ok f => e.epoch :: first.1 ++ f.queries (an - tenMin) tenMin
-    | .error _ => e.epoch :: first.1
+  let t1 := if epochAtNode e then e.epoch + tenMin else e.epoch
+  match lastAn e.z tolKm tenMin e.fuelS e.fuelB t1 with
+  | .error _ => [e.epoch]
+  | .ok f1 =>
+    match lastAn e.z tolKm tenMin e.fuelS e.fuelB (f1.t - tenMin) with
+    | .ok f2 => e.epoch :: f1.queries t1 tenMin ++ f2.queries (f1.t - tenMin) tenMin
+    | .error _ => e.epoch :: f1.queries t1 tenMin
 
 /-- the two attribute slots of `orbit_elements` (absent until first use) -/
 structure Slots where
